@@ -4,7 +4,7 @@ Keys are rule + function + normalised construct text (never line numbers)."""
 # B1: {function: {(kind, text fragment that identifies the construct): reason}}
 B1_EXCEPTIONS = {
     "Atoms.load_lmpdat": {
-        ("angle", "'  '.join(tup[1:])"): "Angle Coeffs tokens are re-joined with two spaces instead of one: whitespace only, "
+        ("angle", "'  '.join("): "Angle Coeffs tokens are re-joined with two spaces instead of one: whitespace only, "
                                          "the token sequence is identical and the writer reproduces the text verbatim",
     },
 }
